@@ -37,6 +37,7 @@ FIXED = [
  ("C04","8499a02","C04:number-syntax:underscore-spelling-read-as-number","names such as 1_0 and 0x1p4 were scanned as the numbers 10 and 16 (keys underscore-spelling-read-as-number, hex-float-spelling-read-as-number)"),
  ("C04","d1332c2","C04:string:literal:line-feeds-after-CR-LF-dropped","in a literal string every LF following a CR was dropped: (a\\r\\n\\nb) read as a\\nb"),
  ("C05","bf914e0","C05:dictstack-restore:error","an encrypted part that closes dictionaries opened before `eexec` and then opens a new one (`end 1 dict begin`) got the wrong dictionary stack back after the section: the re-slice to the former depth resurrected the overwritten slot (`2 dict begin /marker0 70 def currentfile eexec ... cleartomark marker0` → undefined; found after a round-2 seed made C05 enumerate what the encrypted part does to the dictionary stack)"),
+ ("C17","26f593c","C17:order-dependent:Metrics.Write","glyph boxes whose edges are +0 in one glyph and -0 in another (an AFM file may say `B -0 0 400 700`): the union was accumulated in map order, so Metrics.FontBBoxPDF and the `FontBBox` line of Metrics.Write came out as `-0 0 …` or `0 -0 …` from one call to the next; Font.FontBBox / FontBBoxPDF likewise (keys C17:order-dependent:Metrics.Write, C17:order-dependent:afm write+read, C17:order-dependent:Font boxes and Font.Write; the hint came from a seeding agent's side remark)"),
  ("C16","c23956e","C16:glyphlist:multi-code-entry-maps-to-U+0000","the 81 glyph list entries denoting several characters mapped to U+0000 (ToUnicode(\"dalethatafpatah\") = [0000] instead of [05D3 05B2])"),
 ]
 OPEN = [
